@@ -191,3 +191,159 @@ Example C05_ex_roundtrip :
   | Err e => Err e
   end = Ok (ed_pub toy_crypto (repeat x07 64), [x68; x65; x6c; x6c; x6f]).
 Proof. vm_compute. reflexivity. Qed.
+
+From SP Require Import GoLang GoLang2 GoAst GoAstRecv GoAstSign GoAstOpen.
+From SP Require GoAstProofs4b GoAstProofs6a GoAstProofs7c GoEndToEndSign.
+From Coq Require String.
+Import String.StringSyntax.
+(* =========================================== PART A: props/C05.v ======================================= *)
+(* ---- END TO END at the level of the translated Go code: attached signatures (lemmas of proofs/GoEndToEndSign.v) ----
+   The sender is run AS GO CODE: go_sign_session c F v sk pieces r (GoEndToEndSign.v) runs, with the evaluator of
+   model/GoLang2.v, the translated newSignAttachedStream on the empty in-memory writer (mem_enc; r = what the
+   process-wide randomness source delivers), then the translated signAttachedStream.Write once per piece (each must
+   return (len p, nil); the next receiver is what the evaluator left in "s"; fuel F+3, F = 297 is run_func2), then the
+   translated Close (must return nil), and returns the bytes the writer then holds.  The receiver is the translated
+   Verify / NewVerifyStream / verifyStream.getNextChunk under the extern tables of GoAstProofs7c.v / 4b.v.
+   Hypotheses: crypto_ok c; 5 <= F (evaluator fuel of Write); v is Version1 or Version2; the randomness source delivers
+   16 bytes; the keyring holds the signer's public key; the validator is CheckKnownMajorVersion or
+   SingleVersionValidator(v); every piece is shorter than (F-1) MiB (one Write flushes fewer than F blocks: a bound
+   on the evaluator's loop, 296 MiB at F = 297; number of pieces and total length unbounded); the message is shorter
+   than 2^64 bytes (the uint64 packet counter).  No "the evaluator is not stuck" hypothesis: the outcome VALUE of the
+   receiver is derived. *)
+Section C05_source_end_to_end.
+Import GoAstProofs4b GoAstProofs7c GoAstProofs6a GoEndToEndSign.
+Local Open Scope string_scope.
+
+(* Verify(out) returns exactly (signer's key, the plaintext, nil) on the bytes the Go sender session leaves in the
+   writer, for every split of the plaintext into Write calls. *)
+Theorem C05_source_end_to_end_Verify (c : crypto) (Hc : crypto_ok c) (F : nat) (v : version) (sk : bytes)
+        (pieces : list bytes) (r : rng) (kr : sigring) (vd : validator) (VV KR : gval) :
+  (5 <= F)%nat -> v = v1 \/ v = v2 -> (16 <= List.length r)%nat -> In (ed_pub c sk) kr -> good_validator vd v ->
+  Forall (fun p : bytes => (len p + 1048576 < N.of_nat F * 1048576)%N) pieces ->
+  (len (List.concat pieces) < GoAstProofs6a.two64)%N ->
+  exists out,
+    go_sign_session c F v sk pieces r = Some out /\
+    fst (run_func2 (ext_verify c vd kr) f_saltpack_Verify [VV; VBytes out; KR])
+    = ORet [g_spk (ed_pub c sk); VBytes (List.concat pieces); VNil].
+Proof. exact (go_sign_Verify_end_to_end c Hc F v sk pieces r kr vd VV KR). Qed.
+
+(* the same, the hypotheses on version and randomness replaced by "the model's sender returns Ok (out, r')": the Go
+   session's bytes are that out, and Verify accepts them. *)
+Theorem C05_source_end_to_end_Verify_model (c : crypto) (Hc : crypto_ok c) (F : nat) (v : version) (sk : bytes)
+        (pieces : list bytes) (r r' : rng) (out : bytes) (kr : sigring) (vd : validator) (VV KR : gval) :
+  (5 <= F)%nat -> sign_attached_stream c v sk pieces r = Ok (out, r') ->
+  In (ed_pub c sk) kr -> good_validator vd v ->
+  Forall (fun p : bytes => (len p + 1048576 < N.of_nat F * 1048576)%N) pieces ->
+  (len (List.concat pieces) < GoAstProofs6a.two64)%N ->
+  go_sign_session c F v sk pieces r = Some out /\
+  fst (run_func2 (ext_verify c vd kr) f_saltpack_Verify [VV; VBytes out; KR])
+  = ORet [g_spk (ed_pub c sk); VBytes (List.concat pieces); VNil].
+Proof. exact (go_sign_Verify_end_to_end_model c Hc F v sk pieces r r' out kr vd VV KR). Qed.
+
+(* the sender session alone: whenever the model's sender succeeds, the Go session leaves exactly its bytes in the
+   writer.  No crypto hypothesis.  The packet-count bound in the model's terms (packets_bound derives it from
+   len (concat pieces) < 2^64). *)
+Theorem C05_source_end_to_end_sender (c : crypto) (F : nat) (v : version) (sk : bytes) (pieces : list bytes)
+        (r r' : rng) (outb : bytes) :
+  (5 <= F)%nat ->
+  sign_attached_stream c v sk pieces r = Ok (outb, r') ->
+  Forall (fun p : bytes => (List.length p + blk < F * blk)%nat) pieces ->
+  (N.of_nat (List.length (cw_session v sig_block_size [] pieces)) + 2 < GoAstProofs6a.two64)%N ->
+  go_sign_session c F v sk pieces r = Some outb.
+Proof. exact (go_sign_session_model c F v sk pieces r r' outb). Qed.
+
+(* NewVerifyStream on any error-free reader over those bytes returns the signer's key and the chunk reader over the
+   verifyStream object holding the state (h, hh, rest) of the model's header stage, from which the model's loop
+   releases the plaintext and ends with io.EOF. *)
+Theorem C05_source_end_to_end_NewVerifyStream (c : crypto) (Hc : crypto_ok c) (F : nat) (v : version) (sk : bytes)
+        (pieces : list bytes) (r : rng) (kr : sigring) (vd : validator) (VV KR : gval) :
+  (5 <= F)%nat -> v = v1 \/ v = v2 -> (16 <= List.length r)%nat -> In (ed_pub c sk) kr -> good_validator vd v ->
+  Forall (fun p : bytes => (len p + 1048576 < N.of_nat F * 1048576)%N) pieces ->
+  (len (List.concat pieces) < GoAstProofs6a.two64)%N ->
+  exists out h hh rest chunks,
+    go_sign_session c F v sk pieces r = Some out /\
+    (forall rd, rdr_bytes rd = Some out ->
+       fst (run_func2 (ext_NVS c vd kr) f_saltpack_NewVerifyStream [VV; rd; KR])
+       = ORet [g_spk (ed_pub c sk); g_cr_new (g_vs_key h hh (ed_pub c sk) (g_mps_raw rest 1)); VNil]) /\
+    verify_read_header c vd mt_attached out = Ok (h, hh, rest) /\
+    verify_loop c (S (List.length rest)) (h_version h) (ed_pub c sk) hh 0 rest [] = mkOut chunks EOF /\
+    List.concat chunks = List.concat pieces.
+Proof. exact (go_sign_NewVerifyStream_end_to_end c Hc F v sk pieces r kr vd VV KR). Qed.
+
+(* the streaming receiver as Go code: the "chunker" of the reader NewVerifyStream returns (recoded into the encoding
+   of GoAstProofs4b.v: vs_recode), drained by the translated verifyStream.getNextChunk until it reports an error
+   (go_vs_drain, at most k calls), yields chunks with concat chunks = plaintext, then io.EOF; and key, chunks and
+   io.EOF are exactly what the extern "NewVerifyStream" of ext_verify (the table Verify runs under) returns. *)
+Theorem C05_source_end_to_end_stream (c : crypto) (Hc : crypto_ok c) (F : nat) (v : version) (sk : bytes)
+        (pieces : list bytes) (r : rng) (kr : sigring) (vd : validator) (VV KR : gval) :
+  (5 <= F)%nat -> v = v1 \/ v = v2 -> (16 <= List.length r)%nat -> In (ed_pub c sk) kr -> good_validator vd v ->
+  Forall (fun p : bytes => (len p + 1048576 < N.of_nat F * 1048576)%N) pieces ->
+  (len (List.concat pieces) < GoAstProofs6a.two64)%N ->
+  exists out rdobj vsobj vsobj' k chunks,
+    go_sign_session c F v sk pieces r = Some out /\
+    (forall rd, rdr_bytes rd = Some out ->
+       fst (run_func2 (ext_NVS c vd kr) f_saltpack_NewVerifyStream [VV; rd; KR]) = ORet [g_spk (ed_pub c sk); rdobj; VNil]) /\
+    go_field "chunker" rdobj = Some vsobj /\ vs_recode vsobj = Some vsobj' /\
+    go_vs_drain c k vsobj' [] = Some (chunks, VErr "io.EOF" []) /\
+    List.concat chunks = List.concat pieces /\
+    (forall rd, rdr_bytes rd = Some out ->
+       ext_verify c vd kr "NewVerifyStream" [VV; rd; KR] = Some [g_spk (ed_pub c sk); g_stream (mkOut chunks EOF); VNil]).
+Proof. exact (go_sign_stream_end_to_end c Hc F v sk pieces r kr vd VV KR). Qed.
+
+(* the model's verify_loop, whenever it ends with an error Go has a value for, IS the iterated translated
+   getNextChunk (any input, genuine or not).  Hypotheses: major version 1 or 2; n + fuel <= 2^64. *)
+Theorem C05_source_end_to_end_drain_loop (c : crypto) (h : header) (pk hh : bytes) :
+  (vmaj (h_version h) = 1 \/ vmaj (h_version h) = 2)%Z ->
+  forall (fuel : nat) (n : N) (input : bytes) (acc cs : list bytes) (e : err) (ev : gval),
+  (n + N.of_nat fuel <= GoAstProofs6a.two64)%N ->
+  verify_loop c fuel (h_version h) pk hh n input acc = mkOut cs e -> GoAstProofs4b.g_err e = Some ev ->
+  go_vs_drain c fuel (g_vs h pk hh (g_mps input n)) acc = Some (cs, ev).
+Proof. exact (go_vs_drain_loop c h pk hh). Qed.
+
+(* a keyring that does not hold the signer's key: (nil, nil, ErrNoSenderKey). *)
+Theorem C05_source_end_to_end_unknown_signer (c : crypto) (Hc : crypto_ok c) (F : nat) (v : version) (sk : bytes)
+        (pieces : list bytes) (r : rng) (kr : sigring) (vd : validator) (VV KR : gval) :
+  (5 <= F)%nat -> v = v1 \/ v = v2 -> (16 <= List.length r)%nat -> ~ In (ed_pub c sk) kr -> good_validator vd v ->
+  Forall (fun p : bytes => (len p + 1048576 < N.of_nat F * 1048576)%N) pieces ->
+  (len (List.concat pieces) < GoAstProofs6a.two64)%N ->
+  exists out,
+    go_sign_session c F v sk pieces r = Some out /\
+    fst (run_func2 (ext_verify c vd kr) f_saltpack_Verify [VV; VBytes out; KR])
+    = ORet [VNil; VNil; VErr "ErrNoSenderKey" []].
+Proof. exact (go_sign_Verify_unknown_signer c Hc F v sk pieces r kr vd VV KR). Qed.
+
+(* the mode gate: the attached signer's bytes are refused by both detached entry points (any keyring, any message). *)
+Theorem C05_source_end_to_end_refused_by_VerifyDetached (c : crypto) (Hc : crypto_ok c) (F : nat) (v : version)
+        (sk : bytes) (pieces : list bytes) (r : rng) (kr : sigring) (vd : validator) (VV KR : gval) (msg : bytes) :
+  (5 <= F)%nat -> v = v1 \/ v = v2 -> (16 <= List.length r)%nat -> good_validator vd v ->
+  Forall (fun p : bytes => (len p + 1048576 < N.of_nat F * 1048576)%N) pieces ->
+  (len (List.concat pieces) < GoAstProofs6a.two64)%N ->
+  exists out,
+    go_sign_session c F v sk pieces r = Some out /\
+    fst (run_func2 (ext_vdet2 c vd kr) f_saltpack_VerifyDetached [VV; VBytes msg; VBytes out; KR])
+    = ORet [VNil; VErr "ErrWrongMessageType" []] /\
+    fst (run_func2 (ext_vdet c vd kr) f_saltpack_VerifyDetachedReader [VV; g_rdr msg None; VBytes out; KR])
+    = ORet [VNil; VErr "ErrWrongMessageType" []].
+Proof. exact (go_sign_refused_by_VerifyDetached c Hc F v sk pieces r kr vd VV KR msg). Qed.
+End C05_source_end_to_end.
+
+Print Assumptions C05_source_end_to_end_Verify.
+Print Assumptions C05_source_end_to_end_Verify_model.
+Print Assumptions C05_source_end_to_end_sender.
+Print Assumptions C05_source_end_to_end_NewVerifyStream.
+Print Assumptions C05_source_end_to_end_stream.
+Print Assumptions C05_source_end_to_end_drain_loop.
+Print Assumptions C05_source_end_to_end_unknown_signer.
+Print Assumptions C05_source_end_to_end_refused_by_VerifyDetached.
+
+(* non-vacuity: sender and receiver terms evaluated by the kernel on the toy primitives (two Writes, "he" + "llo") *)
+Example C05_ex_source_end_to_end :
+  let c := ToyCrypto.toy_crypto in
+  let sk := repeat x07 64 in
+  match GoEndToEndSign.go_sign_session c 297 v2 sk [[x68; x65]; [x6c; x6c; x6f]] (repeat x01 16) with
+  | Some out => fst (run_func2 (GoAstProofs7c.ext_verify c AnyKnownMajor [ed_pub c sk]) f_saltpack_Verify [VNil; VBytes out; VNil])
+  | None => OStuck "sender"
+  end = ORet [GoAstProofs7c.g_spk (ed_pub ToyCrypto.toy_crypto (repeat x07 64)); VBytes [x68; x65; x6c; x6c; x6f]; VNil].
+Proof. vm_compute. reflexivity. Qed.
+
+
